@@ -14,9 +14,11 @@ import (
 
 	chain "github.com/comdex-official/comdex/app"
 	"github.com/comdex-official/comdex/app/wasm/bindings"
+	assettypes "github.com/comdex-official/comdex/x/asset/types"
 	esmtypes "github.com/comdex-official/comdex/x/esm/types"
 	lockertypes "github.com/comdex-official/comdex/x/locker/types"
 	rewardstypes "github.com/comdex-official/comdex/x/rewards/types"
+	tokenminttypes "github.com/comdex-official/comdex/x/tokenmint/types"
 	vaulttypes "github.com/comdex-official/comdex/x/vault/types"
 )
 
@@ -174,10 +176,26 @@ func c13NewWorld(t *testing.T, a *chain.App, base sdk.Context, tr *tracer) *c13W
 func c13Base(t *testing.T, a *chain.App, ctx sdk.Context) (apps, assets []uint64, denom map[uint64]string, ep map[[2]uint64]uint64) {
 	denom = map[uint64]string{}
 	ep = map[[2]uint64]uint64{}
-	apps = []uint64{addAppRecord(t, a, ctx, "appone"), addAppRecord(t, a, ctx, "apptwo")}
 	a1 := addAsset(t, a, ctx, "CMDX", "ucmdx", 1000000, true, false)
 	a2 := addAsset(t, a, ctx, "CMST", "ucmst", 1000000, true, true)
 	a3 := addAsset(t, a, ctx, "HARBOR", "uharbor", 1000000, true, true)
+	// the apps carry tokenmint data for the secondary (governance) asset: the auction closes burn / mint it
+	for i, name := range []string{"appone", "apptwo"} {
+		err := a.AssetKeeper.AddAppRecords(ctx, assettypes.AppData{Name: name, ShortName: name, MinGovDeposit: sdk.NewInt(0), GovTimeInSeconds: 0,
+			GenesisToken: []assettypes.MintGenesisToken{{AssetId: a3, GenesisSupply: sdk.NewInt(1000000000000000), IsGovToken: i == 0, Recipient: addrN(80).String()}}})
+		if err != nil {
+			t.Fatalf("AddAppRecords: %v", err)
+		}
+		all, _ := a.AssetKeeper.GetApps(ctx)
+		for _, ap := range all {
+			if ap.Name == name {
+				apps = append(apps, ap.Id)
+			}
+		}
+		if cls, err, _ := execMsg(a, ctx, &tokenminttypes.MsgMintNewTokensRequest{From: addrN(80).String(), AppId: apps[i], AssetId: a3}); cls != "ok" {
+			t.Fatalf("MsgMintNewTokens: %s %v", cls, err)
+		}
+	}
 	assets = []uint64{a1, a2, a3}
 	denom[a1], denom[a2], denom[a3] = "ucmdx", "ucmst", "uharbor"
 	setPrice(a, ctx, a1, 2000000, true)
@@ -541,7 +559,7 @@ func (w *c13World) c13RandomOp(r *rng, stage int) {
 	}
 }
 
-func c13RunCase(t *testing.T, a *chain.App, base sdk.Context, tr *tracer, r *rng, ci int, emit bool, apps, assets []uint64,
+func c13RunCase(t *testing.T, a *chain.App, base sdk.Context, tr *tracer, r *rng, ci int, emit bool, directed int, apps, assets []uint64,
 	denom map[uint64]string, ep map[[2]uint64]uint64) {
 	w := c13NewWorld(t, a, base, tr)
 	if !emit {
@@ -577,6 +595,17 @@ func c13RunCase(t *testing.T, a *chain.App, base sdk.Context, tr *tracer, r *rng
 	w.c13AucInit()
 	w.tr.p("op init ok")
 	w.c13Obs()
+	switch directed {
+	case 1:
+		w.c13DirectedPenalty()
+		return
+	case 2:
+		w.c13DirectedV2English(true)
+		return
+	case 3:
+		w.c13DirectedV2English(false)
+		return
+	}
 	// mostly-valid setup prefix: lookup tables, whitelists, reward whitelists
 	for _, app := range apps {
 		for ai, as := range assets[1:] {
@@ -618,7 +647,12 @@ func TestC13(t *testing.T) {
 	ncases := envInt("VERIF_CASES", 40)
 	only := envInt("VERIF_CASE", -1)
 	apps, assets, denom, ep := c13Base(t, a, base)
+	// cases 0..2: the directed witnesses of the known-finding classes (seed-independent); then random
 	for ci := 0; ci < ncases; ci++ {
-		c13RunCase(t, a, base, tr, r, ci, only < 0 || only == ci, apps, assets, denom, ep)
+		directed := 0
+		if ci < 3 {
+			directed = ci + 1
+		}
+		c13RunCase(t, a, base, tr, r, ci, only < 0 || only == ci, directed, apps, assets, denom, ep)
 	}
 }
